@@ -198,7 +198,7 @@ def _oracle(engine, result, case):
             result.violate('step_after_kill', signature_ctx,
                            f'step {later_steps[0][2]} was entered after a kill had been requested on a live process')
         raised_after = any(e[0] == 'raise' for e in events[index + 1:])
-        raised_any = any(e[0] == 'raise' for e in events)
+        raised_any = any(e[0] == 'raise' for e in events) or bool(world.awaitable_errors)  # (a failed awaitable fails the wait)
         ok_final = final_state == 'killed' or (final_state == 'excepted' and (raised_after or raised_any))
         if not ok_final:
             rule = 'cancel_not_killed' if text == CANCEL_TEXT else 'kill_lost'
@@ -217,7 +217,7 @@ def _oracle(engine, result, case):
         if abandoned:
             break
         if record.action['act'] == 'cancel' and record.pre_live and record.result is True:
-            raised = any(e[0] == 'raise' for e in events)
+            raised = any(e[0] == 'raise' for e in events) or bool(world.awaitable_errors)
             if not (final_state == 'killed' or (final_state == 'excepted' and raised)):
                 result.violate('cancel_not_killed', f'cancel@{record.context}/{record.where}|{final_state}',
                                f'the process future was cancelled while the process was live ({record.context}) but the '
